@@ -441,7 +441,7 @@ func hpGapDuring(t0, t1 time.Time) bool {
 var hpExclusive sync.RWMutex
 var hpRemeasured int32
 
-const hpMaxRemeasure = 24
+const hpMaxRemeasure = 12
 
 func hpElapsed(out string) int {
 	i := strings.LastIndex(out, ";ms=")
